@@ -79,5 +79,28 @@ Eval(a, sh, wb) ==
       [] a.k = "neg"  -> OpNeg(Eval(a.x, sh, wb))
       [] a.k = "pct"  -> OpPct(Eval(a.x, sh, wb))
       [] a.k = "bin"  -> ApplyBin(a.op, Eval(a.l, sh, wb), Eval(a.r, sh, wb))
+      \* IF / NOT select lazily: only the condition and the selected branch are evaluated (C10; XlLogic has the
+      \* set of admissible outcomes with the evaluation order, this is its value for references and expressions)
+      [] a.k = "call" /\ a.f = "IF" /\ Len(a.args) \in {2, 3} ->
+            LET c == Eval(a.args[1], sh, wb) IN
+            IF c.t = "err" THEN c
+            ELSE LET tr == Truth(c) IN
+                 IF tr = "open" THEN Open
+                 ELSE IF tr = "t" THEN Eval(a.args[2], sh, wb)
+                 ELSE IF Len(a.args) = 3 THEN Eval(a.args[3], sh, wb) ELSE Bool(FALSE)
+      [] a.k = "call" /\ a.f = "NOT" /\ Len(a.args) = 1 ->
+            LET c == Eval(a.args[1], sh, wb) IN
+            IF c.t = "err" THEN c
+            ELSE LET tr == Truth(c) IN IF tr = "open" THEN Open ELSE Bool(tr = "f")
+      \* AND / OR over values without errors (with an error among the arguments the result depends on where the
+      \* implementation stops: XlLogic!Junction)
+      [] a.k = "call" /\ a.f \in {"AND", "OR"} /\ Len(a.args) >= 1 ->
+            LET es == FlatVals(EvalArgs(a.args, sh, wb))
+                tr == [k \in 1..Len(es) |-> CASE es[k].t = "err" -> "open" [] es[k].t = "blank" -> "skip"
+                                               [] es[k].t = "txt" -> "open" [] OTHER -> Truth(es[k])]
+            IN IF \E k \in 1..Len(es) : tr[k] = "open" THEN Open
+               ELSE IF \A k \in 1..Len(es) : tr[k] = "skip" THEN Open
+               ELSE IF a.f = "AND" THEN Bool(\A k \in 1..Len(es) : tr[k] # "f")
+               ELSE Bool(\E k \in 1..Len(es) : tr[k] = "t")
       [] a.k = "call" -> EvalCallStrict(a.f, EvalArgs(a.args, sh, wb))
 =============================================================================
